@@ -1,7 +1,8 @@
 #!/bin/bash
 # tools/rfdir.sh <refactor N>: persistent scratch export /tmp/rfd-N of HEAD + refactor patch (for debugging with BP_REPO); remove when done
 n=$1
-d=/tmp/rfd-$n; rm -rf $d; mkdir -p $d
-git -C /repo archive HEAD src Cargo.toml benches tests | tar -x -C $d; cp /repo/Cargo.lock $d/
-(cd $d && git init -q . 2>/dev/null && git apply --whitespace=nowarn /verif/refactors/$n/patch.diff) || { echo "patch failed"; exit 3; }
+d=/tmp/rfd-$n; rm -rf $d
+p=$n; [ -f "/verif/refactors/$n/patch.diff" ] && p=/verif/refactors/$n/patch.diff
+/verif/tools/mktree.sh $p $d || { echo "patch failed"; exit 3; }
+[ -f $d/.oldbase ] && echo "(old base 05a894e)"
 echo $d
